@@ -553,8 +553,6 @@ def check_grad(spec, qp, jax, jnp):
         if bad.any():
             raise Viol("gradient-stoch", f"stoch_pulse_grad outside 5 sigma: got {got.tolist()} ref {ref.tolist()} sigma {sigma.tolist()} "
                        f"terms={spec['terms']} t={spec['t']} seed={spec['seed']}", sig="stoch", features=feats)
-        if spec.get("debug"):
-            print("stoch got", got.tolist(), "ref", ref.tolist(), "sigma", sigma.tolist())
         sig_lab = "sigma/|g|<0.2" if np.all(sigma < 0.2 * np.maximum(np.abs(ref), 1e-3)) else "sigma-large"
     nt, _, _ = _nontrivial(spec, order)
     return Result(True, labels=["grad", "method:" + method, sig_lab, f"nparams={len(flat)}", "noncommuting+timedep" if nt else "simple"] + _labels(spec))
